@@ -34,7 +34,7 @@ CASE_TYPES = {
     "chk_split": "circ * res circ",
     "chk_combine": "circ * res circ",
     "chk_labels": "nat * circ * bool * bool * res (list label)",
-    "chk_qmap": "list label * qmap * list (nat * list nat)",
+    "chk_qmap": "list label * res (qmap * list (nat * list nat))",
     "chk_separate": "nat * list (list nat) * circ * option (list label) * res (list subcirc * qmap)",
     "chk_pcq": "otables * nat * circ * list label * res circ",
     "chk_cut": "otables * nat * nat * circ * list nat * res (circ * list nat)",
@@ -211,12 +211,11 @@ def oracle_tables(ctx, qc, canon):
                 lab = r[1].label
                 gtbl[cin["op"][1]] = (ctx.basis_id(r[1].basis), ctx.qlabel(lab))
                 labels.append(lab)
-            elif r[0] == "crashed":
-                raise RuntimeError(f"from_instruction crashed: {r}")
         elif cin["op"][0] == "move" and mv is None:
-            r = TwoQubitQPDGate.from_instruction(op)
-            mv = (ctx.basis_id(r.basis), ctx.qlabel(r.label))
-            labels.append(r.label)
+            r = call_canon(TwoQubitQPDGate.from_instruction, op)
+            if r[0] == "ok":
+                mv = (ctx.basis_id(r[1].basis), ctx.qlabel(r[1].label))
+                labels.append(r[1].label)
         elif cin["op"][0] == "qpd2":
             labels.append(op.label)
     rtbl = []
@@ -271,10 +270,14 @@ def _bfs_components(n, edges):
 def _cc_monitor(graph):
     res = _orig_cc(graph)
     if _W["w"] is not None:
-        nodes = list(graph.node_indices())
-        want = _bfs_components(len(nodes), list(graph.edge_list()))
-        ok = nodes == list(range(len(nodes))) and {frozenset(s) for s in res} == want and sum(len(s) for s in res) == len(nodes)
-        _W["w"].contract("rustworkx.connected_components returns the connected components", ok)
+        try:
+            nodes = list(graph.node_indices())
+            want = _bfs_components(len(nodes), list(graph.edge_list()))
+            ok = nodes == list(range(len(nodes))) and {frozenset(s) for s in res} == want and sum(len(s) for s in res) == len(nodes)
+        except Exception:  # noqa: BLE001  (e.g. an edge to a node that does not exist: the caller's fault, not the oracle's)
+            ok = None
+        if ok is not None:
+            _W["w"].contract("rustworkx.connected_components returns the connected components", ok)
     return res
 
 
@@ -290,6 +293,15 @@ def _wire_seqs(n, canon):
 def _decompose_monitor(self, gates_to_decompose=None, reps=1):
     out = _orig_decompose(self, gates_to_decompose, reps)
     if _W["w"] is not None and gates_to_decompose is TwoQubitQPDGate:
+        try:
+            _decompose_check(self, out)
+        except Exception:  # noqa: BLE001
+            _W["w"].contract("decompose(TwoQubitQPDGate) = permutation of the in-place expansion with equal per-qubit sequences", False)
+    return out
+
+
+def _decompose_check(self, out):
+    if True:
         ctx = CircCtx()
         a = ctx.canon_circuit(self)
         b = ctx.canon_circuit(out)
@@ -305,7 +317,6 @@ def _decompose_monitor(self, gates_to_decompose=None, reps=1):
         ok = (sorted(map(key, exp)) == sorted(map(key, b))  # a permutation of the in-place expansion ...
               and _wire_seqs(self.num_qubits, exp) == _wire_seqs(self.num_qubits, b))  # ... with the same per-qubit sequences
         _W["w"].contract("decompose(TwoQubitQPDGate) = permutation of the in-place expansion with equal per-qubit sequences", ok)
-    return out
 
 
 QuantumCircuit.decompose = _decompose_monitor
@@ -484,16 +495,31 @@ def item_qubits(it):
 # running the implementation
 # --------------------------------------------------------------------------------------------
 
+def canon_auto_labels(v):
+    out = [None if l is None else int(l) for l in v]
+    assert all(l is None or l >= 0 for l in out)
+    return out
+
+
+def try_build(w, desc):
+    """the input circuit is built with the package's own classes (QPD gates, bases, Move, CutWire): if that fails the case
+    cannot be expressed; it is counted and reported through the contract monitor instead of crashing the harness"""
+    try:
+        qc = build(desc)
+        w.contract("input circuit can be built from the package's instruction classes", True)
+        return qc
+    except Exception:  # noqa: BLE001
+        w.contract("input circuit can be built from the package's instruction classes", False)
+        return None
+
+
 def run_separate(desc, labels):
     qc = build(desc)
     ctx = CircCtx()
     cin = ctx.canon_circuit(qc)
     lab = Labeller(labels)
     r = call_canon(separate_circuit, qc, labels)
-    if r[0] == "ok":
-        impl = ["ok", canon_subcircuits(ctx, lab, r[1].subcircuits), canon_qmap(lab, r[1].qubit_map)]
-    else:
-        impl = [r[0], r[1]]
+    impl = canon_result(r, lambda v: (canon_subcircuits(ctx, lab, v.subcircuits), canon_qmap(lab, v.qubit_map)))
     return qc, ctx, cin, lab, impl
 
 
@@ -505,14 +531,33 @@ def run_problem(desc, labels, obs):
     lab = Labeller(labels)
     pl = None if obs is None else mk_plist(obs)
     r = call_canon(partition_problem, qc, labels, pl)
-    if r[0] == "ok":
+
+    def conv(v):
         so = None
-        if r[1].subobservables is not None:
-            so = [[("none" if k is None else lab(k)), canon_plist(v)] for k, v in r[1].subobservables.items()]
-        impl = ["ok", canon_subcircuits(ctx, lab, r[1].subcircuits), [ctx.basis_id(b) for b in r[1].bases], so]
-    else:
-        impl = [r[0], r[1]]
+        if v.subobservables is not None:
+            so = [[("none" if k is None else lab(k)), canon_plist(x)] for k, x in v.subobservables.items()]
+        return (canon_subcircuits(ctx, lab, v.subcircuits), [ctx.basis_id(b) for b in v.bases], so)
+
+    impl = canon_result(r, conv)
     return qc, ctx, cin, tables, lab, impl
+
+
+def canon_result(r, conv):
+    """r = call_canon(...) ; conv canonicalises a successful value.  If the implementation returned something
+    the canonicaliser cannot digest (wrong shape, foreign bits, ...) the outcome is recorded as crashed."""
+    if r[0] != "ok":
+        return [r[0], r[1]]
+    try:
+        return ["ok"] + list(conv(r[1]))
+    except Exception as e:  # noqa: BLE001
+        return ["crashed", f"uncanonicalisable output ({type(e).__name__}: {str(e)[:120]})"]
+
+
+def safe(f, default=None):
+    try:
+        return f()
+    except Exception:  # noqa: BLE001
+        return default
 
 
 def lab_ids(lab, labels):
@@ -542,14 +587,16 @@ def generate(rng, tier, outdir):
         desc = rand_desc(rng, n, None, qpd=False)
         if rng.integers(0, 40) == 0:
             desc["items"].insert(int(rng.integers(0, len(desc["items"]) + 1)), ["barrier", [], None])
-        qc = build(desc)
+        qc = try_build(w, desc)
+        if qc is None:
+            continue
         ctx = CircCtx()
         cin = ctx.canon_circuit(qc)
         new = qc.copy()
-        r = call_canon(_split_barriers, new)
-        out = ctx.canon_circuit(new) if r[0] == "ok" else None
+        r = canon_result(call_canon(_split_barriers, new), lambda _v: (ctx.canon_circuit(new),))
+        out = r[1] if r[0] == "ok" else None
         exp = Res("ok", coq_circ(out)) if r[0] == "ok" else Res(r[0])
-        w.add("split", "chk_split", (coq_circ(cin), exp), json_case("split", desc, cin, impl=[r[0], out]),
+        w.add("split", "chk_split", (coq_circ(cin), exp), json_case("split", desc, cin, impl=[r[0], r[1]]),
               nontrivial=any(i["op"][0] == "barrier" and len(i["qs"]) > 1 for i in cin))
         w.count("split.outcome", r[0])
         w.count("split.max_barrier_span", max([len(i["qs"]) for i in cin if i["op"][0] == "barrier"] + [0]))
@@ -575,14 +622,16 @@ def generate(rng, tier, outdir):
                 desc["items"].append(["barrier", [int(x) for x in rng.permutation(n)[:2]], pick(rng, uu + [None])])
             else:
                 desc["items"].append(["g", "h", [], [qn]])
-        qc = build(desc)
+        qc = try_build(w, desc)
+        if qc is None:
+            continue
         ctx = CircCtx()
         cin = ctx.canon_circuit(qc)
         new = qc.copy()
-        r = call_canon(_combine_barriers, new)
-        out = ctx.canon_circuit(new) if r[0] == "ok" else None
+        r = canon_result(call_canon(_combine_barriers, new), lambda _v: (ctx.canon_circuit(new),))
+        out = r[1] if r[0] == "ok" else None
         exp = Res("ok", coq_circ(out)) if r[0] == "ok" else Res(r[0])
-        w.add("combine", "chk_combine", (coq_circ(cin), exp), json_case("combine", desc, cin, impl=[r[0], out]),
+        w.add("combine", "chk_combine", (coq_circ(cin), exp), json_case("combine", desc, cin, impl=[r[0], r[1]]),
               nontrivial=(r[0] == "ok" and len(out) < len(cin)))
         w.count("combine.removed", len(cin) - len(out) if r[0] == "ok" else r[0])
 
@@ -590,7 +639,9 @@ def generate(rng, tier, outdir):
     for _ in range(N["labels"]):
         n = int(rng.integers(1, 7))
         desc = rand_desc(rng, n, None)
-        qc = build(desc)
+        qc = try_build(w, desc)
+        if qc is None:
+            continue
         ctx = CircCtx()
         cin = ctx.canon_circuit(qc)
         ign = bool(rng.integers(0, 2))
@@ -598,11 +649,11 @@ def generate(rng, tier, outdir):
         kw = dict(keep_idle_wires=keep)
         if ign:
             kw["ignore"] = lambda inst: isinstance(inst.operation, TwoQubitQPDGate)
-        r = call_canon(_partition_labels_from_circuit, qc, **kw)
-        out = [None if l is None else int(l) for l in r[1]] if r[0] == "ok" else None
+        r = canon_result(call_canon(_partition_labels_from_circuit, qc, **kw), lambda v: (canon_auto_labels(v),))
+        out = r[1] if r[0] == "ok" else None
         exp = Res("ok", coq_labels(out)) if r[0] == "ok" else Res(r[0])
         w.add("labels", "chk_labels", (n, coq_circ(cin), ign, keep, exp),
-              json_case("labels", desc, cin, ignore_qpd2=ign, keep_idle=keep, impl=[r[0], out]),
+              json_case("labels", desc, cin, ignore_qpd2=ign, keep_idle=keep, impl=[r[0], r[1]]),
               nontrivial=(r[0] == "ok" and len(set(out)) > 1))
         if r[0] == "ok":
             w.count("labels.ncomponents", len(set(l for l in out if l is not None)))
@@ -614,11 +665,15 @@ def generate(rng, tier, outdir):
         n = int(rng.integers(0, 8))
         labels = rand_partition(rng, n, True)
         lab = Labeller(labels)
-        qm, qbs = _qubit_map_from_partition_labels(labels)
-        w.add("qmap", "chk_qmap", (coq_labels(lab_ids(lab, labels)), coq_qmap(canon_qmap(lab, qm)),
-                                   [(lab(k), [int(x) for x in v]) for k, v in qbs.items()]),
-              dict(kind="qmap", labels=[tagged(l) for l in labels], impl=["ok", canon_qmap(lab, qm)]),
-              nontrivial=len(qbs) > 1)
+        r = canon_result(call_canon(_qubit_map_from_partition_labels, labels),
+                         lambda v: (canon_qmap(lab, v[0]), [[lab(k), [int(x) for x in x2]] for k, x2 in v[1].items()]))
+        if r[0] == "ok":
+            exp = Res("ok", (coq_qmap(r[1]), [(k, list(v)) for k, v in r[2]]))
+        else:
+            exp = Res(r[0])
+        w.add("qmap", "chk_qmap", (coq_labels(lab_ids(lab, labels)), exp),
+              dict(kind="qmap", labels=[tagged(l) for l in labels], impl=[r[0], r[1]]),
+              nontrivial=(r[0] == "ok" and len(r[2]) > 1))
 
     # ---- separate_circuit ----
     for _ in range(N["separate"]):
@@ -634,6 +689,8 @@ def generate(rng, tier, outdir):
         else:  # malformed stream: wrong count / incompatible circuit
             labels = rand_partition(rng, max(0, n + int(pick(rng, [-1, 0, 0, 1]))), True)
             desc = rand_desc(rng, n, None, clbits=clb)
+        if try_build(w, desc) is None:
+            continue
         qc, ctx, cin, lab, impl = run_separate(desc, labels)
         if impl[0] == "ok":
             exp = Res("ok", (coq_subcircuits(impl[1]), coq_qmap(impl[2])))
@@ -649,8 +706,8 @@ def generate(rng, tier, outdir):
         w.count("separate.n", n)
         if impl[0] == "ok":
             w.count("separate.nsub", len(impl[1]))
-            w.count("separate.barrier_spanning_partitions", any(
-                i["op"][0] == "barrier" and len({impl[2][x][0] for x in i["qs"]}) > 1 for i in cin))
+            w.count("separate.barrier_spanning_partitions", safe(lambda: any(
+                i["op"][0] == "barrier" and len({impl[2][x][0] for x in i["qs"]}) > 1 for i in cin), "?"))
             w.count("separate.has_dropped_qubit", None in impl[2])
 
     # ---- partition_circuit_qubits ----
@@ -658,16 +715,18 @@ def generate(rng, tier, outdir):
         n = int(rng.integers(1, 7))
         labels = rand_partition(rng, n if rng.integers(0, 15) else n + 1, True)
         desc = rand_desc(rng, n, labels if len(labels) == n else None, within=0.5, bad2q=True)
-        qc = build(desc)
+        qc = try_build(w, desc)
+        if qc is None:
+            continue
         ctx = CircCtx()
         cin = ctx.canon_circuit(qc)
         tables = oracle_tables(ctx, qc, cin)
         lab = Labeller(labels)
-        r = call_canon(partition_circuit_qubits, qc, labels)
-        out = ctx.canon_circuit(r[1]) if r[0] == "ok" else None
+        r = canon_result(call_canon(partition_circuit_qubits, qc, labels), lambda v: (ctx.canon_circuit(v),))
+        out = r[1] if r[0] == "ok" else None
         exp = Res("ok", coq_circ(out)) if r[0] == "ok" else Res(r[0])
         w.add("pcq", "chk_pcq", (coq_tables(tables), n, coq_circ(cin), coq_labels(lab_ids(lab, labels)), exp),
-              json_case("pcq", desc, cin, labels=[tagged(l) for l in labels], impl=[r[0], out if r[0] == "ok" else r[1]]),
+              json_case("pcq", desc, cin, labels=[tagged(l) for l in labels], impl=[r[0], r[1]]),
               nontrivial=(r[0] == "ok" and out != cin))
         w.count("pcq.outcome", r[0])
 
@@ -676,7 +735,9 @@ def generate(rng, tier, outdir):
         n = int(rng.integers(2, 7))
         clb = bool(rng.integers(0, 10) == 0)
         desc = rand_desc(rng, n, None, clbits=clb, bad2q=True)
-        qc = build(desc)
+        qc = try_build(w, desc)
+        if qc is None:
+            continue
         ctx = CircCtx()
         cin = ctx.canon_circuit(qc)
         tables = oracle_tables(ctx, qc, cin)
@@ -687,12 +748,12 @@ def generate(rng, tier, outdir):
                 ids.append(int(pick(rng, two)))
             else:
                 ids.append(int(rng.integers(0, len(cin) + 2)))
-        r = call_canon(cut_gates, qc, ids)
+        r = canon_result(call_canon(cut_gates, qc, ids),
+                         lambda v: ([ctx.canon_circuit(v[0]), [ctx.basis_id(b) for b in v[1]]],))
+        out = r[1]
         if r[0] == "ok":
-            out = [ctx.canon_circuit(r[1][0]), [ctx.basis_id(b) for b in r[1][1]]]
             exp = Res("ok", (coq_circ(out[0]), out[1]))
         else:
-            out = r[1]
             exp = Res(r[0])
         w.add("cut", "chk_cut", (coq_tables(tables), qc.num_clbits, len(qc.cregs), coq_circ(cin), ids, exp),
               json_case("cut", desc, cin, ids=ids, impl=[r[0], out]), nontrivial=(r[0] == "ok" and len(ids) > 0))
@@ -733,6 +794,8 @@ def generate(rng, tier, outdir):
                 od = desc if no == n else dict(items=[])
                 ol = labels if (labels is None or len(labels) == no) else None
                 obs = rand_obs(rng, no, od, ol, phases=(mode == "malformed" and bool(rng.integers(0, 2))))
+        if try_build(w, desc) is None:
+            continue
         qc, ctx, cin, tables, lab, impl = run_problem(desc, labels, obs)
         if impl[0] == "ok":
             so = impl[3]
@@ -759,7 +822,7 @@ def generate(rng, tier, outdir):
             w.count("problem.ncuts", len(impl[2]))
             w.count("problem.nsub", len(impl[1]))
             w.count("problem.preplaced_qpd2", any(i["op"][0] == "qpd2" for i in cin))
-            w.count("problem.subobs_has_None_key", bool(impl[3]) and any(k == "none" for k, _ in impl[3]))
+            w.count("problem.subobs_has_None_key", safe(lambda: bool(impl[3]) and any(k == "none" for k, _ in impl[3]), "?"))
 
     _W["w"] = None
     return w.finish(
@@ -942,6 +1005,17 @@ def _label_ids_of_case(case):
 
 
 def judge(case):
+    """never raises: an output the oracle cannot interpret is itself reported"""
+    try:
+        return _judge(case)
+    except Exception as e:  # noqa: BLE001
+        impl = case.get("impl") if isinstance(case, dict) else None
+        return dict(violates=bool(impl) and impl[0] in ("ok", "crashed"),
+                    detail=f"the recorded output could not be interpreted by the oracle ({type(e).__name__}: {str(e)[:160]}); "
+                           f"outcome {impl[0] if impl else None}")
+
+
+def _judge(case):
     k = case["kind"]
     impl = case["impl"]
     circ = case.get("circ")
@@ -979,6 +1053,8 @@ def judge(case):
             problems.append("keep_idle_wires=True but a qubit got None")
         return dict(violates=bool(problems), detail="; ".join(problems) or "idle qubits <-> None")
     if k == "qmap":
+        if impl[0] != "ok":
+            return dict(violates=True, detail=f"_qubit_map_from_partition_labels failed: {impl}")
         labels = [untag(t) for t in case["labels"]]
         lab = Labeller(labels)
         cnt = {}
@@ -991,7 +1067,10 @@ def judge(case):
                 cnt[l] = cnt.get(l, 0) + 1
         return dict(violates=want != impl[1], detail=f"want {want} got {impl[1]}")
     if k in ("pcq", "cut"):
-        # helpers of partition_problem; the property speaks about them only through partition_problem
+        # helpers of partition_problem; the property speaks about them only through partition_problem.
+        # A non-ValueError exception is a failure all the same (except the documented IndexError of a bad gate id).
+        if impl[0] == "crashed" and not (k == "cut" and any(g >= len(circ) for g in case["ids"])):
+            return dict(violates=True, detail=f"{k}: the call failed with a non-ValueError exception: {impl[1]}")
         return dict(violates=False, detail="helper function: no clause of the property text applies directly")
     n = nqubits(case["desc"])
     if k == "separate":
@@ -1162,6 +1241,15 @@ def _is_preplaced_qpd1(circ, i):
 # --------------------------------------------------------------------------------------------
 
 def rerun(case):
+    """never raises: a failure to rebuild / re-execute is recorded as a crashed outcome"""
+    try:
+        return _rerun(case)
+    except Exception as e:  # noqa: BLE001
+        case["impl"] = ["crashed", f"{type(e).__name__}: {str(e)[:200]}"]
+        return case
+
+
+def _rerun(case):
     k = case["kind"]
     desc = case.get("desc")
     if k == "split":
@@ -1169,27 +1257,28 @@ def rerun(case):
         ctx = CircCtx()
         case["circ"] = ctx.canon_circuit(qc)
         new = qc.copy()
-        r = call_canon(_split_barriers, new)
-        case["impl"] = [r[0], ctx.canon_circuit(new) if r[0] == "ok" else None]
+        r = canon_result(call_canon(_split_barriers, new), lambda _v: (ctx.canon_circuit(new),))
+        case["impl"] = [r[0], r[1]]
     elif k == "combine":
         qc = build(desc)
         ctx = CircCtx()
         case["circ"] = ctx.canon_circuit(qc)
         new = qc.copy()
-        r = call_canon(_combine_barriers, new)
-        case["impl"] = [r[0], ctx.canon_circuit(new) if r[0] == "ok" else None]
+        r = canon_result(call_canon(_combine_barriers, new), lambda _v: (ctx.canon_circuit(new),))
+        case["impl"] = [r[0], r[1]]
     elif k == "labels":
         qc = build(desc)
         kw = dict(keep_idle_wires=case["keep_idle"])
         if case["ignore_qpd2"]:
             kw["ignore"] = lambda inst: isinstance(inst.operation, TwoQubitQPDGate)
         case["circ"] = CircCtx().canon_circuit(qc)
-        r = call_canon(_partition_labels_from_circuit, qc, **kw)
-        case["impl"] = [r[0], [None if l is None else int(l) for l in r[1]] if r[0] == "ok" else None]
+        r = canon_result(call_canon(_partition_labels_from_circuit, qc, **kw), lambda v: (canon_auto_labels(v),))
+        case["impl"] = [r[0], r[1]]
     elif k == "qmap":
         labels = [untag(t) for t in case["labels"]]
         lab = Labeller(labels)
-        case["impl"] = ["ok", canon_qmap(lab, _qubit_map_from_partition_labels(labels)[0])]
+        r = canon_result(call_canon(_qubit_map_from_partition_labels, labels), lambda v: (canon_qmap(lab, v[0]),))
+        case["impl"] = [r[0], r[1]]
     elif k == "separate":
         labels = None if case["labels"] is None else [untag(t) for t in case["labels"]]
         qc, ctx, cin, lab, impl = run_separate(desc, labels)
@@ -1200,15 +1289,16 @@ def rerun(case):
         ctx = CircCtx()
         case["circ"] = ctx.canon_circuit(qc)
         oracle_tables(ctx, qc, case["circ"])
-        r = call_canon(partition_circuit_qubits, qc, labels)
-        case["impl"] = [r[0], ctx.canon_circuit(r[1]) if r[0] == "ok" else r[1]]
+        r = canon_result(call_canon(partition_circuit_qubits, qc, labels), lambda v: (ctx.canon_circuit(v),))
+        case["impl"] = [r[0], r[1]]
     elif k == "cut":
         qc = build(desc)
         ctx = CircCtx()
         case["circ"] = ctx.canon_circuit(qc)
         oracle_tables(ctx, qc, case["circ"])
-        r = call_canon(cut_gates, qc, case["ids"])
-        case["impl"] = [r[0], [ctx.canon_circuit(r[1][0]), [ctx.basis_id(b) for b in r[1][1]]] if r[0] == "ok" else r[1]]
+        r = canon_result(call_canon(cut_gates, qc, case["ids"]),
+                         lambda v: ([ctx.canon_circuit(v[0]), [ctx.basis_id(b) for b in v[1]]],))
+        case["impl"] = [r[0], r[1]]
     elif k == "problem":
         labels = None if case["labels"] is None else [untag(t) for t in case["labels"]]
         qc, ctx, cin, tables, lab, impl = run_problem(desc, labels, case["obs"])
